@@ -288,6 +288,9 @@ def run(ctx, P):
     r2.known_answers_always_consulted(ctx, P, "C10f")
     r2.cache_update_rules(ctx, P, "C10g", want=("reset",))
     r2.compares_like_with_like(ctx, P, "C10h", fnames=("matches",))
+    from . import r4
+    r4.every_question_considered(ctx, P, "C10i")
+    r4.age_subtracted_once(ctx, P, "C10j")
     clause_e(ctx, P)
     clause_a(ctx, P)
     clause_b(ctx, P)
